@@ -646,6 +646,7 @@ def rule_cow(rep, build):
         rep.functions += 1
         _cow_function(rep, rid, m, f, excl_summary, report=True)
     rule_cmp(rep, m)
+    rule_cmp_semantic(rep, m)
 
 
 def _cow_function(rep, rid, m, f, summ, report):
@@ -847,3 +848,90 @@ def rule_cmp(rep, m):
         rep.violation(rid, "byte_array::cmp:null-branches", f.src, "byte_array::cmp: " + "; ".join(bad))
     else:
         rep.instance(rid, 2, {"empty_vs_nonempty": empty_vs_nonempty, "nonempty_vs_empty": nonempty_vs_empty})
+
+
+def rule_cmp_semantic(rep, m):
+    """D4s: byte_array::cmp has the ordering of std::vector<unsigned char>
+    (lexicographic, length as tie-break, all empty arrays equal however they
+    came to be empty): the method's IR is evaluated by constant propagation
+    (av/affine.Machine, memcmp modelled on constant memory) on every ordered
+    pair of a small family of array representations - no storage, storage with
+    size 0, one and two bytes with equal / smaller / larger contents, and an
+    alias of the same block."""
+    from .affine import Machine, Ptr, Unsupported, const_bits, to_int, is_const
+    from .sponge import cbytes
+    rid = "C20.D4s"
+    rep.rule(rid, "byte_array::cmp orders arrays like std::vector (all representations of small arrays, incl. empty ones)")
+    f = None
+    for g in m.defined():
+        if re.match(r"^_ZNK5ascon10byte_array3cmpERKS0_$", g.name):
+            f = g
+    if f is None:
+        raise repo.AnalysisBroken("byte_array::cmp not found in the NO_STL IR")
+    t = None
+    for dt in m.ditypes:
+        if dt["name"] == "byte_array_private":
+            t = dt
+    if t is None:
+        raise repo.AnalysisBroken("%s: no debug type for byte_array_private" % rid)
+    off = {mem[0]: mem[1] for mem in t["members"]}
+    if not {"ref", "size", "capacity", "data"} <= set(off):
+        raise repo.AnalysisBroken("%s: unexpected members of byte_array_private: %s" % (rid, sorted(off)))
+    reps = [("no storage", None), ("empty with storage", b""), ("[01]", b"\x01"), ("[02]", b"\x02"), ("[01 01]", b"\x01\x01"),
+            ("[01 02]", b"\x01\x02"), ("[00]", b"\x00"), ("[ff]", b"\xff"), ("[01] again", b"\x01")]
+
+    def memcmp_hook(mc, args):
+        a, b, n = args
+        n = to_int(n)
+        if n is None:
+            raise Unsupported("memcmp with a non-constant length")
+        for k in range(n):
+            x, y = mc.load(Ptr(a.obj, a.off + k), 1), mc.load(Ptr(b.obj, b.off + k), 1)
+            if not (is_const(x) and is_const(y)):
+                raise Unsupported("memcmp on non-constant memory")
+            if to_int(x) != to_int(y):
+                return const_bits((1 if to_int(x) > to_int(y) else -1) & 0xffffffff, 32)
+        return const_bits(0, 32)
+
+    def build(mc, tag, content):
+        obj = mc.new_obj("arr_" + tag, 8, symbolic=False)
+        if content is None:
+            mc.store(obj, const_bits(0, 64))
+            return obj
+        blk = mc.new_obj("blk_" + tag, t["size"], symbolic=False)
+        dat = mc.new_obj("dat_" + tag, max(len(content), 1) + 3, symbolic=False)
+        mc.store(dat, cbytes(content + b"\xaa\xbb\xcc"))
+        mc.store(Ptr(blk.obj, off["ref"]), const_bits(1, 64))
+        mc.store(Ptr(blk.obj, off["size"]), const_bits(len(content), 64))
+        mc.store(Ptr(blk.obj, off["capacity"]), const_bits(len(content) + 3, 64))
+        mc.store_ptr(Ptr(blk.obj, off["data"]), dat)
+        mc.store_ptr(obj, blk)
+        return obj
+    bad = []
+    n = 0
+    try:
+        for i, (na, ca) in enumerate(reps):
+            for j, (nb, cb) in enumerate(reps):
+                mc = Machine(m)
+                mc.hooks["memcmp"] = memcmp_hook
+                a = build(mc, "a", ca)
+                b2 = a if (i == j) else build(mc, "b", cb)       # i == j: the same object (alias)
+                r = to_int(mc.call(f.name, [a, b2]))
+                if r is None:
+                    raise Unsupported("result not constant")
+                r = r - (1 << 32) if r >> 31 else r
+                va, vb = ca or b"", cb or b""
+                want = (va > vb) - (va < vb)
+                got = (r > 0) - (r < 0)
+                n += 1
+                if got != want:
+                    bad.append("%s vs %s gives %d, std::vector orders them %s" % (
+                        na, nb if i != j else "itself", r, {0: "equal", 1: "greater", -1: "less"}[want]))
+    except Unsupported as e:
+        rep.unproved_item(rid, "byte_array::cmp: %s" % e)
+        return
+    if bad:
+        rep.violation(rid, "byte_array::cmp:ordering", f.src, "byte_array::cmp (ASCON_NO_STL): " + "; ".join(bad[:4]) +
+                      (" (and %d more)" % (len(bad) - 4) if len(bad) > 4 else ""))
+    else:
+        rep.instance(rid, n, {"pairs": n})
